@@ -100,6 +100,62 @@ def scan(fn, helper_adds=None):
     return out
 
 
+# ---- E12b: a set that is only ever grown is a 'visited' set; refusing on a repeat visit turns sharing into a cycle ---------------
+POSITIVE_B = """
+def build(obj, seen=None):
+    if seen is None:
+        seen = set()
+    if isinstance(obj, (list, dict)):
+        if id(obj) in seen:
+            raise ValueError("cycle")
+        seen.add(id(obj))
+    if isinstance(obj, list):
+        return [build(x, seen) for x in obj]
+    return obj
+"""
+NEGATIVE_B = """
+def build(obj, seen=frozenset()):
+    if isinstance(obj, (list, dict)):
+        if id(obj) in seen:
+            raise ValueError("cycle")
+        seen = seen | {id(obj)}
+    if isinstance(obj, list):
+        return [build(x, seen) for x in obj]
+    return obj
+def walk(obj, visited):
+    if id(obj) in visited:
+        return None
+    visited.add(id(obj))
+    return [walk(x, visited) for x in obj]
+"""
+
+
+def scan_b(fn):
+    """[(verdict, raise node, set name)]: in a recursive function, a membership test on a set that leads to `raise` while the
+    set is grown in place (`S.add`), handed on to the recursive calls as it is, and never shrunk."""
+    name = fn.name
+    rec_calls = [c for c in walk_no_nested(fn) if isinstance(c, ast.Call) and (dotted(c.func) == name or (isinstance(c.func, ast.Attribute) and c.func.attr == name))]
+    if not rec_calls:
+        return []
+    from .astx import dominating_conditions, flatten_conditions
+    out = []
+    grown = {c.func.value.id for c in walk_no_nested(fn) if isinstance(c, ast.Call) and isinstance(c.func, ast.Attribute)
+             and c.func.attr == "add" and isinstance(c.func.value, ast.Name)}
+    for S in sorted(grown):
+        if any(_is_call_stmt(x, ("discard", "remove", "pop", "clear"), {S}) for x in walk_no_nested(fn)):
+            continue            # E12 judges sets that are shrunk somewhere
+        handed_on = any(any(isinstance(a, ast.Name) and a.id == S for a in list(c.args) + [k.value for k in c.keywords]) for c in rec_calls)
+        if not handed_on:
+            continue
+        for r in walk_no_nested(fn):
+            if not isinstance(r, ast.Raise):
+                continue
+            for t, pol in flatten_conditions(dominating_conditions(r)):
+                if pol and isinstance(t, ast.Compare) and len(t.ops) == 1 and isinstance(t.ops[0], ast.In) and dotted(t.comparators[0]) == S:
+                    out.append(("bad", r, S))
+    return out
+
+
 def e12(ctx):
     m = ctx.model
     ctx.rule("E12", "enter/leave pairing in recursive functions: an entry added to a tracking set on the way in (`seen.add(id(obj))`, "
@@ -109,6 +165,11 @@ def e12(ctx):
     neg = scan(_set_parents(ast.parse(NEGATIVE)).body[0])
     if sorted(v for v, *_ in pos) != ["bad", "ok", "ok"] or any(v == "bad" for v, *_ in neg) or len(neg) != 3:
         raise Inconclusive(f"E12 self-test: embedded examples judged {[v for v, *_ in pos]} / {[v for v, *_ in neg]}")
+    posb = scan_b(_set_parents(ast.parse(POSITIVE_B)).body[0])
+    tb = _set_parents(ast.parse(NEGATIVE_B))
+    negb = scan_b(tb.body[0]) + scan_b(tb.body[1])
+    if [v for v, *_ in posb] != ["bad"] or negb:
+        raise Inconclusive(f"E12b self-test: embedded examples judged {[v for v, *_ in posb]} / {[v for v, *_ in negb]}")
     # helpers that add to a set parameter
     helper_adds = {}
     for fq, f in m.functions.items():
@@ -131,6 +192,14 @@ def e12(ctx):
                               f"sub-dictionary) is reported as a cycle")
             else:
                 ctx.proved("E12", f.file, f.short, r, f"return after `{ast.unparse(enter)[:40]}`", "the entry is removed before this exit")
+        for verdict, r, S in scan_b(f.node):
+            n += 1
+            bad += 1
+            ctx.violation("E12", f.file, f.short, r, f"refusal on a repeat visit ({S})",
+                          f"`{ast.unparse(r)[:60]}` (line {r.lineno}) refuses an object found in `{S}`, but {f.short} only ever adds to `{S}` and "
+                          f"hands the same set to its recursive calls: it holds everything visited so far, not the ancestors, so the second "
+                          f"legal reference to a shared container (a YAML anchor used twice, an object reference in a binary plist) is "
+                          f"reported as a cycle - one loader refuses data its siblings accept")
     if not bad:
         ctx.proved("E12", "graphtage/", "-", None, "enter/leave paired", f"{scanned} functions scanned, {n} exits after a tracked entry, all paired "
                                                                          f"(embedded positive and negative examples judged as expected)")
